@@ -56,4 +56,87 @@ or which command is being processed -/
         simp_all
       · exact ih s
 
+
+/-! ### helpers that leave all control fields alone (or move only a position) -/
+
+@[simp] theorem getCmdState_frame (D : Desc) (s : St) (i : Nat) :
+    SameCtl s (getCmdState D s i).1 ∧ SameMem s (getCmdState D s i).1 ∧ SameBuf s (getCmdState D s i).1
+    ∧ SameLog s (getCmdState D s i).1 := by
+  unfold getCmdState; split <;> simp
+
+@[simp] theorem setCmdState_frame (D : Desc) (s : St) (i v : Nat) :
+    SameCtl s (setCmdState D s i v) ∧ SameMem s (setCmdState D s i v) ∧ SameLog s (setCmdState D s i v) := by
+  unfold setCmdState; simp
+
+/-- all control fields except `writeSize` -/
+@[simp] abbrev SameCtlWS (s s' : St) : Prop :=
+  s'.index = s.index ∧ s'.partialCntr = s.partialCntr ∧ s'.length = s.length ∧
+  s'.cmd = s.cmd ∧ s'.cmdType = s.cmdType ∧
+  s'.currentChar = s.currentChar ∧ s'.state = s.state ∧ s'.crFlag = s.crFlag ∧
+  s'.writeSrc = s.writeSrc ∧ s'.writeState = s.writeState ∧
+  s'.writeStateAfter = s.writeStateAfter ∧ s'.implicitWriteFlag = s.implicitWriteFlag ∧
+  SameU' s s' ∧ SameH s s' ∧ SameR s s' ∧ SamePos s s'
+
+@[simp] theorem storeInt_frame (s : St) (v : VarD) (val : Nat) :
+    SameCtlWS s (storeInt s v val) ∧ SameBuf s (storeInt s v val) := by
+  unfold storeInt; simp
+
+@[simp] theorem validateIntRange_frame (s : St) (v : VarD) (neg : Bool) (mag : Nat) :
+    SameCtlWS s (validateIntRange s v neg mag).1 ∧ SameBuf s (validateIntRange s v neg mag).1 := by
+  unfold validateIntRange
+  simp only
+  (repeat' split) <;> simp
+
+@[simp] theorem validateUIntRange_frame (s : St) (v : VarD) (val : Nat) :
+    SameCtlWS s (validateUIntRange s v val).1 ∧ SameBuf s (validateUIntRange s v val).1 := by
+  unfold validateUIntRange
+  simp only
+  (repeat' split) <;> simp
+
+@[simp] theorem loadUInt_frame (s : St) (v : VarD) :
+    SameCtl s (loadUInt s v).1 ∧ SameMem s (loadUInt s v).1 ∧ SameBuf s (loadUInt s v).1 ∧ SameLog s (loadUInt s v).1 := by
+  unfold loadUInt; simp
+
+@[simp] theorem formatIntDecimal_frame (D : Desc) (s : St) (f : Fsm) (v : VarD) :
+    SameCtlNP s (formatIntDecimal D s f v).1 ∧ SameMem s (formatIntDecimal D s f v).1 ∧ SameLog s (formatIntDecimal D s f v).1 := by
+  unfold formatIntDecimal; split <;> simp
+@[simp] theorem formatIntDecimal_pos_other (D : Desc) (s : St) (v : VarD) :
+    (formatIntDecimal D s .cmd v).1.uposition = s.uposition ∧ (formatIntDecimal D s .uns v).1.position = s.position := by
+  unfold formatIntDecimal; constructor <;> split <;> simp
+
+@[simp] theorem formatUIntDecimal_frame (D : Desc) (s : St) (f : Fsm) (v : VarD) :
+    SameCtlNP s (formatUIntDecimal D s f v).1 ∧ SameMem s (formatUIntDecimal D s f v).1 ∧ SameLog s (formatUIntDecimal D s f v).1 := by
+  unfold formatUIntDecimal; split <;> simp
+@[simp] theorem formatUIntDecimal_pos_other (D : Desc) (s : St) (v : VarD) :
+    (formatUIntDecimal D s .cmd v).1.uposition = s.uposition ∧ (formatUIntDecimal D s .uns v).1.position = s.position := by
+  unfold formatUIntDecimal; constructor <;> split <;> simp
+
+@[simp] theorem formatNumHexadecimal_frame (D : Desc) (s : St) (f : Fsm) (v : VarD) :
+    SameCtlNP s (formatNumHexadecimal D s f v).1 ∧ SameMem s (formatNumHexadecimal D s f v).1 ∧ SameLog s (formatNumHexadecimal D s f v).1 := by
+  unfold formatNumHexadecimal; split <;> simp
+@[simp] theorem formatNumHexadecimal_pos_other (D : Desc) (s : St) (v : VarD) :
+    (formatNumHexadecimal D s .cmd v).1.uposition = s.uposition ∧ (formatNumHexadecimal D s .uns v).1.position = s.position := by
+  unfold formatNumHexadecimal; constructor <;> split <;> simp
+
+@[simp] theorem formatBufferHexadecimal_frame (D : Desc) (s : St) (f : Fsm) (v : VarD) :
+    SameCtlNP s (formatBufferHexadecimal D s f v).1 ∧ SameMem s (formatBufferHexadecimal D s f v).1 ∧ SameLog s (formatBufferHexadecimal D s f v).1 := by
+  unfold formatBufferHexadecimal; simp
+@[simp] theorem formatBufferHexadecimal_pos_other (D : Desc) (s : St) (v : VarD) :
+    (formatBufferHexadecimal D s .cmd v).1.uposition = s.uposition ∧ (formatBufferHexadecimal D s .uns v).1.position = s.position := by
+  unfold formatBufferHexadecimal; simp
+
+@[simp] theorem formatBufferString_frame (D : Desc) (s : St) (f : Fsm) (v : VarD) :
+    SameCtlNP s (formatBufferString D s f v).1 ∧ SameMem s (formatBufferString D s f v).1 ∧ SameLog s (formatBufferString D s f v).1 := by
+  unfold formatBufferString; simp
+@[simp] theorem formatBufferString_pos_other (D : Desc) (s : St) (v : VarD) :
+    (formatBufferString D s .cmd v).1.uposition = s.uposition ∧ (formatBufferString D s .uns v).1.position = s.position := by
+  unfold formatBufferString; simp
+
+@[simp] theorem formatInfoType_frame (D : Desc) (s : St) (f : Fsm) (v : VarD) :
+    SameCtlNP s (formatInfoType D s f v).1 ∧ SameMem s (formatInfoType D s f v).1 ∧ SameLog s (formatInfoType D s f v).1 := by
+  unfold formatInfoType; split <;> simp
+@[simp] theorem formatInfoType_pos_other (D : Desc) (s : St) (v : VarD) :
+    (formatInfoType D s .cmd v).1.uposition = s.uposition ∧ (formatInfoType D s .uns v).1.position = s.position := by
+  unfold formatInfoType; constructor <;> split <;> simp
+
 end Cat
